@@ -30,6 +30,18 @@ CLAIMED = {
     },
 }
 
+CLAIMED["C04"] = {
+    "text": "Decides the verdict of parameter checking for every value and combination at once: the accepted region of each of "
+            "the 23 ParamGuard::check_ref bodies is computed from its guard structure with an interval-set algebra and must "
+            "equal the documented range table (strictness included: `<` vs `<=` changes the set); check(self) must be "
+            "check_ref()? plus an unchanged projection of self; every fit/fit_with/transform entry point on an unchecked "
+            "builder must be dominated by the check and return its error; checked types must not be constructible from "
+            "caller-supplied values outside the guard. Not decided: behaviour of training on valid parameters.",
+    "design_ref": "DESIGN.md section 4, C04",
+    "note": "Trusted: rustc resolution/typeck, the fact dump, the documented range table frozen in rules/c04.py (one source reference per row). NaN/infinite parameter values are outside the claim, as in the property.",
+    "technique": _T + ": guard extraction + interval algebra vs documented table, dominance of the check over entry points, who-may-construct on checked types",
+}
+
 NOT_APPLICABLE = {
     "C05": "every clause equates a returned number with a textbook formula over unbounded inputs; no pairing/ordering/agreement structure is necessary for a wrong value, and a frozen-formula matcher would fire on any algebraic refactor (DESIGN.md section 5)",
     "C06": "kernel entry values, symmetry, PSD-ness, dense/sparse agreement and the merge-replay stop rule are relations between computed floating-point values; no sound static argument in reach bounds them (the hash-order cluster numbering in the same file is decided under C20)",
